@@ -1,6 +1,8 @@
 import DltypeModel
+import Spec
+import Properties.C05
 namespace Dltype.C18
-open Dltype
+open Dltype Dltype.Spec
 
 /-- the printer folds literal-literal operands to the value Python computes -/
 theorem fold_add (x y : Int) : (Sym.bin .add (.lit x) (.lit y)).print = .ok (intStr (x + y)) := rfl
@@ -17,5 +19,202 @@ theorem full_statement_false :
   refine ⟨rfl, ?_, ?_⟩
   · decide
   · decide
+
+/-- a literal that prints as a numeral which reads back as itself (true of every natural number; a
+    decidable side condition, so that no lemma about decimal printing is needed) -/
+def litOK (n : Int) : Bool :=
+  decide (0 ≤ n) && !(intStr n).isEmpty && (intStr n).all isDigit && decide (Int.ofNat (digitsToNat (intStr n)) = n)
+
+/-- the expression tree of the string grammar that a symbolic expression is printed as — defined exactly
+    when no literal-literal operation is folded, every literal is a natural number and no operand is a
+    constant / anonymous axis -/
+def toTree : Sym → Option Tree
+  | .lit n => if litOK n then some (.lit (intStr n)) else none
+  | .var x => some (.var x)
+  | .bad => none
+  | .grp a => (toTree a).map .grp
+  | .isqrt a => if a.litVal.isSome then none else (toTree a).map .isqrt
+  | .fn2 f a b =>
+    if (a.litVal.isSome && b.litVal.isSome) || f = .isqrt then none
+    else match toTree a, toTree b with
+      | some x, some y => some (.fn2 f x y)
+      | _, _ => none
+  | .bin o l r =>
+    if l.litVal.isSome && r.litVal.isSome then none
+    else match toTree l, toTree r with
+      | some x, some y => some (.bin o x y)
+      | _, _ => none
+
+theorem print_bin_nofold (o : BinOp) (l r : Sym) (h : (l.litVal.isSome && r.litVal.isSome) = false) :
+    (Sym.bin o l r).print = (do
+      let sl ← l.print; let sr ← r.print
+      pure (sl ++ [match o with | .add => '+' | .sub => '-' | .mul => '*' | .div => '/' | .exp => '^'] ++ sr)) := by
+  cases hla : l.litVal with
+  | none => simp only [Sym.print, hla]; cases o <;> rfl
+  | some x =>
+    cases hlb : r.litVal with
+    | none => simp only [Sym.print, hla, hlb]; cases o <;> rfl
+    | some y => simp [hla, hlb] at h
+
+theorem print_fn2_nofold (f : Fn) (a b : Sym) (h : (a.litVal.isSome && b.litVal.isSome) = false) :
+    (Sym.fn2 f a b).print = (do
+      let sa ← a.print; let sb ← b.print
+      pure ((match f with | .min => "min(" | .max => "max(" | .isqrt => "isqrt(").toList ++ sa ++ [','] ++ sb ++ [')'])) := by
+  cases hla : a.litVal with
+  | none => simp only [Sym.print, hla]; cases f <;> rfl
+  | some x =>
+    cases hlb : b.litVal with
+    | none => simp only [Sym.print, hla, hlb]; cases f <;> rfl
+    | some y => simp [hla, hlb] at h
+
+/-- where `toTree` is defined, the printer writes exactly the string of that tree … -/
+theorem print_is_tree_string (s : Sym) (t : Tree) (h : toTree s = some t) : s.print = .ok t.str := by
+  induction s generalizing t with
+  | lit n =>
+    simp only [toTree] at h
+    split at h
+    · cases h; rfl
+    · cases h
+  | var x => simp only [toTree] at h; cases h; rfl
+  | bad => simp [toTree] at h
+  | grp a ih =>
+    simp only [toTree, Option.map_eq_some_iff] at h
+    obtain ⟨ta, hta, rfl⟩ := h
+    simp [Sym.print, ih ta hta, Tree.str, bind, Except.bind, pure, Except.pure]
+  | isqrt a ih =>
+    simp only [toTree] at h
+    split at h
+    · cases h
+    · rename_i hl
+      simp only [Option.map_eq_some_iff] at h
+      obtain ⟨ta, hta, rfl⟩ := h
+      have hlv : a.litVal = none := by simpa using hl
+      simp [Sym.print, hlv, ih ta hta, Tree.str, kwIsqrt, bind, Except.bind, pure, Except.pure]
+  | fn2 f a b iha ihb =>
+    simp only [toTree] at h
+    split at h
+    · cases h
+    · rename_i hc
+      simp only [Bool.or_eq_true, Bool.and_eq_true, decide_eq_true_eq, not_or, not_and] at hc
+      cases hta : toTree a with
+      | none => simp [hta] at h
+      | some ta =>
+        cases htb : toTree b with
+        | none => simp [hta, htb] at h
+        | some tb =>
+          simp only [hta, htb] at h
+          cases h
+          have hnl : (a.litVal.isSome && b.litVal.isSome) = false := by
+            cases h1 : a.litVal.isSome <;> cases h2 : b.litVal.isSome <;> simp_all
+          rw [print_fn2_nofold f a b hnl, iha ta hta, ihb tb htb]
+          cases f with
+          | isqrt => exact absurd rfl hc.2
+          | min => simp [Tree.str, fnName, kwMin, bind, Except.bind, pure, Except.pure]
+          | max => simp [Tree.str, fnName, kwMax, bind, Except.bind, pure, Except.pure]
+  | bin o l r ihl ihr =>
+    simp only [toTree] at h
+    split at h
+    · cases h
+    · rename_i hc
+      cases htl : toTree l with
+      | none => simp [htl] at h
+      | some tl =>
+        cases htr : toTree r with
+        | none => simp [htl, htr] at h
+        | some tr =>
+          simp only [htl, htr] at h
+          cases h
+          have hnl : (l.litVal.isSome && r.litVal.isSome) = false := by simpa using hc
+          rw [print_bin_nofold o l r hnl, ihl tl htl, ihr tr htr]
+          cases o <;> simp [Tree.str, binChar, bind, Except.bind, pure, Except.pure]
+
+/-- … and that tree has the value Python's evaluation of the operator expression gives -/
+theorem tree_value_is_python_value (s : Sym) (t : Tree) (h : toTree s = some t) (σ : Name → Option Int) :
+    t.eval σ = s.pyEval σ := by
+  induction s generalizing t with
+  | lit n =>
+    simp only [toTree] at h
+    split at h
+    · rename_i hok
+      cases h
+      simp only [litOK, Bool.and_eq_true, decide_eq_true_eq] at hok
+      simp only [Tree.eval, Sym.pyEval]
+      exact congrArg some hok.2
+    · cases h
+  | var x => simp only [toTree] at h; cases h; rfl
+  | bad => simp [toTree] at h
+  | grp a ih =>
+    simp only [toTree, Option.map_eq_some_iff] at h
+    obtain ⟨ta, hta, rfl⟩ := h
+    simp [Tree.eval, Sym.pyEval, ih ta hta]
+  | isqrt a ih =>
+    simp only [toTree] at h
+    split at h
+    · cases h
+    · simp only [Option.map_eq_some_iff] at h
+      obtain ⟨ta, hta, rfl⟩ := h
+      simp only [Tree.eval, Sym.pyEval, ih ta hta]
+      cases Sym.pyEval σ a <;> rfl
+  | fn2 f a b iha ihb =>
+    simp only [toTree] at h
+    split at h
+    · cases h
+    · cases hta : toTree a with
+      | none => simp [hta] at h
+      | some ta =>
+        cases htb : toTree b with
+        | none => simp [hta, htb] at h
+        | some tb =>
+          simp only [hta, htb] at h
+          cases h
+          simp only [Tree.eval, Sym.pyEval, iha ta hta, ihb tb htb]
+          cases Sym.pyEval σ a <;> cases Sym.pyEval σ b <;> cases f <;> rfl
+  | bin o l r ihl ihr =>
+    simp only [toTree] at h
+    split at h
+    · cases h
+    · cases htl : toTree l with
+      | none => simp [htl] at h
+      | some tl =>
+        cases htr : toTree r with
+        | none => simp [htl, htr] at h
+        | some tr =>
+          simp only [htl, htr] at h
+          cases h
+          simp only [Tree.eval, Sym.pyEval, ihl tl htl, ihr tr htr]
+          cases Sym.pyEval σ l <;> cases Sym.pyEval σ r <;> cases o <;> rfl
+
+/-- **C18_partial** for every symbolic expression that prints without folding and whose printed form needs
+    no parentheses of its own (the tree it is printed as is well-formed: every infix operand binds at least
+    as tightly on the left, strictly tighter on the right — e.g. flat chains, functions, explicit `Group`s),
+    `TensorType[Shape[...]]` means what Python's evaluation of the operator expression means: the printed
+    string evaluates, under every scope, to exactly Python's value. -/
+theorem printed_string_means_python_value (s : Sym) (t : Tree) (h : toTree s = some t) (hwf : t.WF = true)
+    (σ : Scope) (v : Int) :
+    (∃ str, s.print = .ok str ∧ evalString str σ = some (.val v)) ↔ s.pyEval σ.get? = some v := by
+  rw [← tree_value_is_python_value s t h σ.get?, ← C05.string_evaluates_to_arithmetic_value t hwf σ v]
+  constructor
+  · rintro ⟨str, hp, he⟩
+    rw [print_is_tree_string s t h] at hp
+    cases hp
+    exact he
+  · intro he
+    exact ⟨t.str, print_is_tree_string s t h, he⟩
+
+/-- arithmetic on a constant / anonymous axis is refused -/
+theorem bad_operand_refused (o : BinOp) (x : Sym) :
+    (Sym.bin o x .bad).print = .error .typeError ∨ (∃ e, x.print = .error e) := by
+  cases hx : x.print with
+  | error e => exact Or.inr ⟨e, rfl⟩
+  | ok sx =>
+    left
+    simp only [Sym.print]
+    cases hl : x.litVal <;> simp [Sym.litVal, hx, bind, Except.bind]
+
+/-- non-vacuity: `a - b ** Group(4 - z)` is printed as a well-formed tree -/
+theorem example_printable :
+    (match toTree (.bin .sub (.var ['a']) (.bin .exp (.var ['b']) (.grp (.bin .sub (.lit 4) (.var ['z']))))) with
+     | some t => t.WF
+     | none => false) = true := by decide
 
 end Dltype.C18
